@@ -383,9 +383,14 @@ fn workload(m: &mut Mon, bits: usize) {
 fn main() {
     let mut m = Mon::new("C08", dispatch);
     if !m.replay_if_requested() {
-        for &bits in WIDTHS {
-            if m.width_enabled(bits) {
-                workload(&mut m, bits);
+        loop {
+            for &bits in WIDTHS {
+                if m.width_enabled(bits) {
+                    workload(&mut m, bits);
+                }
+            }
+            if !m.another_light_pass() {
+                break;
             }
         }
     }
